@@ -144,3 +144,16 @@ Theorem src64_tie_all_year_dst : forall p b,
   ptz_ok p -> dst_abbr p <> [] -> all_year_dst p = OK b -> flat_allyear p = OK b.
 Proof. exact s64_AllYearDST_tie. Qed.
 Print Assumptions src64_tie_all_year_dst.
+
+From CCTZ Require Import LoadCert.
+
+(* end to end: for EVERY accepted byte string whose data satisfies the side condition *)
+Theorem c01_every_accepted_file : forall bs z h t, load_bytes bs = OK (Some z) ->
+  gaps_wide (zz_doff (abs_zone z)) (zz_tr (abs_zone z)) = true -> int64 t ->
+  (z_extended z = false \/ (forall l, last_opt (z_trans z) = Some l -> t < tr_time l)) ->
+  exists h' dst ab,
+    break_time z h t = OK (mkAL (civil_of_seconds (t + zoff (abs_zone z) t)) (zoff (abs_zone z) t) dst ab, h')
+    /\ info_of z (zid (abs_zone z) t) = OK (dst, ab).
+Proof. exact accepted_break_refines_lemma. Qed.
+Print Assumptions c01_every_accepted_file.
+
